@@ -34,6 +34,9 @@ type c19Worker struct {
 type c19Case struct {
 	Engine  string
 	Workers []c19Worker
+	// ExpiryMs > 0: Event records expire natively after one second (the engine's timers fire while requests run); after
+	// the workers have finished, light traffic on the Event keys continues for this long
+	ExpiryMs int `json:"expiry_ms,omitempty"`
 }
 
 var c19Kinds = []string{"writer", "writer", "writer", "reader", "reader", "streamer", "watcher", "compactor", "compactor", "locker", "describer", "faulty"}
@@ -46,11 +49,17 @@ func genC19(t *rapid.T) interface{} {
 		if i < 2 && DrawBool(t, 50, "twoCompactors") {
 			kind = "compactor" // concurrent compactions are part of the statement
 		}
+		if os.Getenv("VERIF_EXPIRY") != "" && i < 2 {
+			kind = "writer"
+		}
 		c.Workers = append(c.Workers, c19Worker{
 			Kind: kind,
 			N:    rapid.IntRange(5, 60).Draw(t, "n"),
 			Seed: rapid.IntRange(0, 1000).Draw(t, "seed"),
 		})
+	}
+	if os.Getenv("VERIF_EXPIRY") != "" {
+		c.ExpiryMs = rapid.SampledFrom([]int{1100, 1300}).Draw(t, "expiryMs")
 	}
 	return c
 }
@@ -174,6 +183,11 @@ func runC19(ci interface{}, st *CaseStats) error {
 	keys := make([]string, len(c19Keys))
 	for i, k := range c19Keys {
 		keys[i] = FullKey(k)
+	}
+	if c.ExpiryMs > 0 {
+		backend.SetEventsTTLForVerif(1)
+		defer backend.SetEventsTTLForVerif(3600)
+		keys = append(keys, FullKey("events/default/e2"), FullKey("events/kube-system/e3"))
 	}
 	end := backend.PrefixEnd([]byte(Prefix + "/"))
 	var wg sync.WaitGroup
@@ -332,6 +346,18 @@ func runC19(ci interface{}, st *CaseStats) error {
 	case <-time.After(120 * time.Second):
 		return Inconclusivef("workload did not finish in 120s")
 	}
+	if c.ExpiryMs > 0 {
+		// the engine's expiry timers fire about a second after each Event write; keep the store busy meanwhile
+		st.Label("native-expiry-while-busy")
+		until := time.Now().Add(time.Duration(c.ExpiryMs) * time.Millisecond)
+		for i := 0; time.Now().Before(until); i++ {
+			k := keys[i%len(keys)]
+			_, _ = b.Get(context.Background(), &proto.GetRequest{Key: []byte(k)})
+			_, _ = b.Create(context.Background(), &proto.CreateRequest{Key: []byte(k), Value: []byte("tail")})
+			_, _ = b.List(context.Background(), &proto.RangeRequest{Key: []byte(Prefix + "/"), End: end})
+			time.Sleep(2 * time.Millisecond)
+		}
+	}
 	// let the background retry loop work on what the faulty writers left
 	deadline := time.Now().Add(2 * time.Second)
 	for backend.RetryQueueLenForVerif(b) > 0 && time.Now().Before(deadline) {
@@ -379,7 +405,7 @@ func runC19(ci interface{}, st *CaseStats) error {
 
 var specC19 = &Spec{
 	ID:   "C19",
-	Rule: "binary built with -race; case = 4..16 free-running goroutines, each one of: writer (create/update/delete with expectations from its own observations), reader (get / list / limited list / count / partitions), streamer (range stream), watcher (open, drain, cancel), compactor (compaction trailing by 0..5 revisions), locker (the node's single elector: resource-lock get/create/update), describer (lock description reads, as request handlers do), faulty writer (every third commit answered 'outcome unknown' so that the background repair loop runs with 3 ms / 1 ms intervals), 5..60 operations each, on memkv and Badger. Oracle = the race detector (GORACE=halt_on_error=0, reports read from its log after each case and reduced to the pair of innermost frames inside kubebrain or the in-process engine's skip list); a panic in a request is a violation too. Non-trivial = at least two different request kinds overlapped in time (measured from recorded windows); distinct = SHA-1 of the case",
+	Rule: "binary built with -race; case = 4..16 free-running goroutines, each one of: writer (create/update/delete with expectations from its own observations), reader (get / list / limited list / count / partitions), streamer (range stream), watcher (open, drain, cancel), compactor (compaction trailing by 0..5 revisions), locker (the node's single elector: resource-lock get/create/update), describer (lock description reads, as request handlers do), faulty writer (every third commit answered 'outcome unknown' so that the background repair loop runs with 3 ms / 1 ms intervals), 5..60 operations each, on memkv and Badger; expiry shards set the Events TTL to 1 s, write Event keys and keep light traffic going for 1.1..1.3 s so that the engine's native expiry (memkv timers, Badger TTL) happens while requests run. Oracle = the race detector (GORACE=halt_on_error=0, reports read from its log after each case and reduced to the pair of innermost frames inside kubebrain or the in-process engine's skip list); a panic in a request is a violation too. Non-trivial = at least two different request kinds overlapped in time (measured from recorded windows); distinct = SHA-1 of the case",
 	Gen:  genC19,
 	New:  func() interface{} { return &c19Case{} },
 	Run:  runC19,
